@@ -80,7 +80,7 @@ Definition check_sel (c : sel_case) : N :=
 
 (* ---------------------------------------------------------------- generator info *)
 Inductive gev :=
-| GForge (lost : bool) (forged : bool) (hdr : bh) (at_handoff stored : option geninfo)
+| GForge (who : N) (lost : bool) (forged : bool) (hdr : bh) (at_handoff stored : option geninfo)
 | GTip (t : tip) | GSync (b : bool) | GRestart.
 
 Definition bh_eqb (a b : bh) : bool :=
@@ -90,38 +90,42 @@ Definition gi_eqb (a b : geninfo) : bool :=
 Definition ogi_eqb (a b : option geninfo) : bool :=
   match a, b with Some x, Some y => gi_eqb x y | None, None => true | _, _ => false end.
 
-(* state of the walk: model state, headers the implementation handed on (newest first), agreement, oracle *)
-Fixpoint walk (g : N) (m : st) (pubs : list bh) (agree spec : bool) (evs : list gev) : bool * bool :=
+(* state of the walk: model state (one record per generator address), headers the implementation handed on (newest
+   first, all generators), agreement, oracle *)
+Fixpoint walk (m : mst) (pubs : list bh) (agree spec : bool) (evs : list gev) : bool * bool :=
   match evs with
   | [] => (agree, spec)
   | e :: r =>
       match e with
-      | GForge lost forged hdr ath stored =>
-          let m' := step g init_header m (EForge (if lost then CrashAfterPersist else NoCrash)) in
-          let expected := if syncing m then None else init_header (disk m) (node m) g in
+      | GForge who lost forged hdr ath stored =>
+          let m' := mstep init_header m (MForge who (if lost then CrashAfterPersist else NoCrash)) in
+          let expected := if msyncing m then None else init_header (mdisk m who) (mnode m) who in
           let a := match expected with
                    | Some (h, info) => forged && bh_eqb hdr h && ogi_eqb ath (Some info) && ogi_eqb stored (Some info)
-                   | None => negb forged && ogi_eqb stored (disk m)
+                   | None => negb forged && ogi_eqb stored (mdisk m who)
                    end in
+          let mine := signed_by who pubs in
           let sp := negb forged ||
-                    ((* maxHeightGenerated reports the largest height generated before *)
-                     (max_height pubs <=? mhg hdr) &&
-                     (* what is on disk at hand-off time is the info of this very header *)
+                    ((* signed by the generator of the slot *)
+                     (gen hdr =? who) &&
+                     (* maxHeightGenerated reports the largest height THIS generator generated before *)
+                     (max_height mine <=? mhg hdr) &&
+                     (* what is on disk for this generator at hand-off time is the info of this very header *)
                      ogi_eqb ath (Some (Build_geninfo (height hdr) (mhp hdr) (mhg hdr))) &&
-                     (* the header contradicts none of the earlier ones *)
+                     (* the header contradicts none of the earlier ones (of any generator of the node) *)
                      (lost || forallb (fun p => negb (contradicting p hdr) && negb (contradicting hdr p)) pubs)) in
-          walk g m' (if forged && negb lost then hdr :: pubs else pubs) (agree && a) (spec && sp) r
-      | GTip t => walk g (step g init_header m (ETip t)) pubs agree spec r
-      | GSync b => walk g (step g init_header m (ESync b)) pubs agree spec r
-      | GRestart => walk g (step g init_header m ERestart) pubs agree spec r
+          walk m' (if forged && negb lost then hdr :: pubs else pubs) (agree && a) (spec && sp) r
+      | GTip t => walk (mstep init_header m (MTip t)) pubs agree spec r
+      | GSync b => walk (mstep init_header m (MSync b)) pubs agree spec r
+      | GRestart => walk (mstep init_header m MRestart) pubs agree spec r
       end
   end.
 
-Definition gen_case : Type := N * tip * list gev.
+Definition gen_case : Type := tip * list gev.
 
 Definition check_gen (c : gen_case) : N :=
-  let '(g, t0, evs) := c in
-  let '(a, sp) := walk g (init t0) [] true true evs in
+  let '(t0, evs) := c in
+  let '(a, sp) := walk (minit t0) [] true true evs in
   code a sp.
 
 (* misbehaving environment on the real node: (first forged, second forged, the two headers contradict) *)
